@@ -17,6 +17,7 @@
   Core-only.
 -/
 import Gozod.Model.FormatSpec
+import Gozod.Model.FormatSpecV6
 namespace Gozod
 namespace Parsers
 open Fmt
@@ -155,8 +156,9 @@ def cidrv6Spec (s : List Nat) : Bool :=
     leading zeros, '/', a canonical decimal 0–32: the definition itself -/
 def goCIDRv4 : List Nat → Bool := cidrv4.run
 
-/-- validate.CIDRv6 after pending/C20-cidr.diff: netip.ParsePrefix ∧ Is6 -/
-def goCIDRv6 : List Nat → Bool := cidrv6Spec
+/-- validate.CIDRv6 (netip.ParsePrefix ∧ Is6, fix a919100): netip's address syntax is RFC 4291 §2.2 without zone,
+    the prefix length a canonical decimal 0–128: the definition itself -/
+def goCIDRv6 : List Nat → Bool := cidrv6.run
 
 end Parsers
 end Gozod
